@@ -36,9 +36,156 @@ def f(a):
     return probs
 
 
+_MINI = {
+    "AutoCarver/__init__.py": "",
+    "AutoCarver/m.py": '''
+class Base:
+    def __init__(self, features, copy=False, orders=None):
+        self.features = list(features)
+        self.copy = copy
+        self.orders = orders
+        self.is_fitted = False
+
+    def _check(self):
+        assert not self.is_fitted
+
+    def _prepare(self, X):
+        x_copy = X
+        if self.copy:
+            x_copy = X.copy()
+        return x_copy
+
+    def fit(self, X):
+        self._check()
+        self.cache = {}
+        return self
+
+    def transform(self, X):
+        x = self._prepare(X)
+        x["a"] = 1
+        return x
+
+
+class Child(Base):
+    def fit(self, X):
+        self.features.append("late")
+        super().fit(X)
+        return self
+
+    def transform(self, X):
+        self.orders.update({"k": 1})
+        return super().transform(X)
+
+
+def helper(d, k):
+    d.pop(k)
+
+
+def build(shared):
+    o = Base(["f"], copy=True, orders=shared)
+    helper(o.orders, "x")
+    return o
+''',
+}
+
+
+def _effects() -> List[str]:
+    import os
+    import tempfile
+
+    from ..core import Repo
+    from ..effects import Effects
+
+    probs = []
+    with tempfile.TemporaryDirectory() as d:
+        os.makedirs(os.path.join(d, "AutoCarver"))
+        for rel, src in _MINI.items():
+            with open(os.path.join(d, rel), "w") as fh:
+                fh.write(src)
+        repo = Repo(d, alpha=False)
+        eng = Effects(repo)
+        base, child = repo.find_class("Base"), repo.find_class("Child")
+        _, s = eng.method_summary(base, "transform", True)
+        if any(e.path[0] == "p:X" for e in s.events):
+            probs.append("effects: Base.transform[copy=True] must not mutate X")
+        _, s = eng.method_summary(base, "transform", False)
+        if not any(e.path == ("p:X", None) and e.kind == "mut" for e in s.events):
+            probs.append("effects: Base.transform[copy=False] must mutate X")
+        _, s = eng.method_summary(base, "fit", None)
+        if not s.ends_guarded or any(e.path[0] == "self" and not e.guarded for e in s.events):
+            probs.append("effects: Base.fit writes self.cache after the guard")
+        _, s = eng.method_summary(child, "fit", None)
+        if not any(e.path == ("self", "features") and not e.guarded for e in s.events):
+            probs.append("effects: Child.fit mutates self.features before the guard")
+        _, s = eng.method_summary(child, "transform", True)
+        if not any(e.path == ("self", "orders") for e in s.events):
+            probs.append("effects: Child.transform mutates self.orders")
+        s = eng.summary(repo.find_function("build"))
+        if not any(e.path == ("p:shared", None) and e.kind == "mut" for e in s.events):
+            probs.append("effects: build() mutates its argument through the attribute of the object it built")
+    return probs
+
+
+def _exprs() -> List[str]:
+    from ..exprs import canon_unparse, cmp_canon, p_and, p_atom, p_equiv, p_not, p_or
+
+    probs = []
+    e = lambda t: ast.parse(t, mode="eval").body  # noqa: E731
+    if cmp_canon(e("a > b")) != cmp_canon(e("b < a")) or cmp_canon(e("not a < b")) != cmp_canon(e("b <= a")):
+        probs.append("exprs: comparison normaliser")
+    if canon_unparse(e("f(x >= 1)")) != canon_unparse(e("f(1 <= x)")):
+        probs.append("exprs: canon_unparse")
+    a, b = p_atom("A"), p_atom("B")
+    if p_equiv(p_not(p_and(a, b)), p_or(p_not(a), p_not(b))) is not None or p_equiv(p_and(a, b), p_or(a, b)) is None:
+        probs.append("exprs: truth tables")
+    return probs
+
+
+def _flow() -> List[str]:
+    from ..flow import possibly_unbound
+
+    probs = []
+    ok = ast.parse("def f(a):\n    if any(a):\n        x = 1\n    y = 2\n    if any(a):\n        return x\n    return y\n").body[0]
+    bad = ast.parse("def f(a):\n    if a is None:\n        x = 1\n    return x\n").body[0]
+    if possibly_unbound(ok):
+        probs.append("flow: same-test correlation")
+    if not possibly_unbound(bad):
+        probs.append("flow: unbound local not reported")
+    return probs
+
+
+def _resolution() -> List[str]:
+    """Appendix B of DESIGN.md: the engine's method resolution on the reference tree."""
+    from ..core import AnalysisError, Repo
+    from . import is_pristine
+
+    try:
+        repo = Repo()
+    except AnalysisError:
+        return []
+    if not is_pristine(repo):
+        return []  # the table describes the reference tree only
+    want = {
+        ("Discretizer", "transform"): "BaseDiscretizer", ("Discretizer", "_remove_feature"): "Discretizer",
+        ("QualitativeDiscretizer", "_prepare_data"): "QualitativeDiscretizer", ("ContinuousDiscretizer", "_prepare_data"): "BaseDiscretizer",
+        ("BinaryCarver", "_remove_feature"): "BaseCarver", ("BinaryCarver", "to_json"): "BaseCarver", ("MulticlassCarver", "fit"): "MulticlassCarver",
+        ("ContinuousCarver", "_grouper"): "ContinuousCarver", ("ChainedDiscretizer", "_remove_feature"): "BaseDiscretizer",
+        ("StringDiscretizer", "summary"): "BaseDiscretizer", ("BinaryCarver", "__prepare_data"): "BaseDiscretizer",
+    }
+    probs = []
+    for (cls, meth), owner in want.items():
+        fi = repo.lookup_method(repo.find_class(cls), meth)
+        got = fi.cls.name if fi is not None else None
+        if got != owner:
+            probs.append(f"resolution: {cls}.{meth} resolves to {got}, expected {owner}")
+    if repo.lookup_method(repo.find_class("BaseCarver"), "_grouper") is not None:
+        probs.append("resolution: BaseCarver must not define _grouper")
+    return probs
+
+
 def run_all() -> List[str]:
     probs = []
-    for f in (_cfg,):
+    for f in (_cfg, _effects, _exprs, _flow, _resolution):
         try:
             probs += f()
         except Exception as exc:  # pragma: no cover
